@@ -13,8 +13,8 @@ import scratch
 from scratch import Undecided, VERIF
 
 KANI_PROPS = ["C01", "C02", "C03", "C04", "C05", "C06", "C07", "C08", "C09", "C11", "C12", "C14", "C15", "C16", "C17", "C18", "C19"]
-VERUS_PROPS = ["C01", "C02", "C03", "C04", "C05", "C06", "C07", "C08", "C09", "C11", "C12", "C13", "C14", "C15", "C16", "C17", "C18", "C19", "C20"]
-CLAIMED = ["C01", "C02", "C03", "C04", "C05", "C06", "C07", "C08", "C09", "C11", "C12", "C13", "C14", "C15", "C16", "C17", "C18", "C19", "C20"]
+VERUS_PROPS = ["C01", "C02", "C03", "C04", "C05", "C06", "C07", "C08", "C09", "C10", "C11", "C12", "C13", "C14", "C15", "C16", "C17", "C18", "C19", "C20"]
+CLAIMED = ["C01", "C02", "C03", "C04", "C05", "C06", "C07", "C08", "C09", "C10", "C11", "C12", "C13", "C14", "C15", "C16", "C17", "C18", "C19", "C20"]
 
 TRUSTED_BASE = [
     "Kani 0.68 MIR->goto translation, CBMC 6.11 (+CaDiCaL; z3 4.8.12 for the four DIV/IDIV contracts)",
@@ -167,7 +167,7 @@ def run_property(pid: str, tier: str, seed: int) -> int:
             import verus_engine
             checker_cmds.append("verus <unit>.rs --output-json --time (functions cut verbatim from the scratch copy)")
             verus_engine.run_for_property(pid, tier, seed, dst, root, rep, findings)
-        if pid == "C11":
+        if pid in ("C11", "C10"):
             text_spec_selfcheck(dst, rep)
         if not rep.obligations:
             raise Undecided("no obligation was generated for this property")
